@@ -36,6 +36,11 @@ def budget(tier):
 
 def gen_cases(rng, n, tier):
     cases = B.gen_cases_default(rng, n, tier, manualtx=True)
+    # a plugin supplies an attribute of the transaction record: every record has to carry it, also one that is
+    # created late (a flush in which nothing looked modified beforehand: cascade from a non-versioned parent)
+    extra = B.gen_cases_default(rng, max(30, n // 8), tier, manualtx=True,
+                                cfgs=[dict(c, txargs=True) for c in B.all_cfgs('own')[::2] + B.all_cfgs('blog')[::4]])
+    cases += extra
     k = 0
     for c in cases:
         if c['cfg'].get('shape') != 'blog':
@@ -72,6 +77,9 @@ def corpus():
              prog=[['add', 3, 1, {'a': 0}], ['commit'], ['set', 3, 1, {'a': 1}], ['commit'],
                    ['add', 0, 1, {'a': 1}], ['flush'], ['add', 1, 1, {}], ['flush'], ['rollback'],
                    ['add', 0, 1, {'a': 2}], ['commit']]),
+        dict(cfg=dict(shape='own', strategy='validity', txargs=True),
+             prog=[['add', 0, 1, {'a': 1}], ['add', 1, 1, {'a': 1}], ['petto', 1, 1], ['commit'], ['forget'], ['del', 0, 1], ['commit'],
+                   ['set', 1, 1, {'a': 2}], ['commit']]),
         # a relationship touched without net change (linked and unlinked again before the flush; a tag re-pointed to
         # the parent it has) and nothing else: no transaction record
         dict(cfg=dict(shape='blog', strategy='validity'),
